@@ -737,6 +737,20 @@ func RecoverWALData() {
 	}
 
 	for _, fileData := range walFilesData {
+		// The WAL files of a block are deleted oldest first, and only after the block was flushed
+		// (rotateBlock, and the end of this loop). If the first WAL file is gone, the block is
+		// complete on disk and the files that are left hold only a part of it: replaying them
+		// would overwrite the block with that part.
+		if len(fileData.walFiles) > 0 && walFileIndex(fileData.walFiles[0]) != 0 {
+			for _, walFileName := range fileData.walFiles {
+				err := deleteWalFile(baseDir, walFileName)
+				if err != nil {
+					log.Warnf("RecoverWALData : Failed to delete wal file %s: %v", walFileName, err)
+				}
+			}
+			continue
+		}
+
 		mBlock := initMetricsBlock(fileData.mId, fileData.segID, fileData.blockNo)
 		isWalFileEmpty := true
 		replayedFiles := make([]string, 0, len(fileData.walFiles))
